@@ -11,6 +11,11 @@ pub mod mock;
 pub mod gen_;
 
 use fw::{Ctx, Tier};
+
+// The binary's single global allocator: a pass-through (one relaxed load per allocation) unless a
+// C08 decode thread armed it to measure what a single decode allocates.
+#[global_allocator]
+static GLOBAL: checks::c08::CountingAlloc = checks::c08::CountingAlloc;
 use std::collections::BTreeMap;
 use std::time::Instant;
 
